@@ -701,6 +701,10 @@ func (in *Inst) unop(x *ssa.UnOp, st *State) Val {
 			if cv, ok := e.W.constGlobal(e, g); ok {
 				return cv
 			}
+			if _, isSt := x.Type().Underlying().(*types.Struct); isSt && e.W.zeroGlobal(g) {
+				e.note("package-level struct variable " + g.Pkg.Pkg.Name() + "." + g.Name() + " has no initialiser and is never assigned: it is the zero value")
+				return e.zeroVal(x.Type())
+			}
 		}
 		if v.K == KRef {
 			in.nilCheck(v, x.X, x.Pos(), st)
